@@ -14,6 +14,7 @@ import (
 	"verif/internal/overlay"
 	"verif/internal/run"
 	"verif/shim/vmap"
+	"verif/shim/vsync"
 )
 
 // C06 — determinism: stateless DFS over map-iteration orders (every `range <map>` of the library is owned by the
@@ -24,6 +25,7 @@ func init() {
 	chk.RegisterWorker("c06", workC06)
 	chk.RegisterWorker("c06pairs", workC06Pairs)
 	chk.RegisterWorker("c06bytes", workC06Bytes)
+	chk.RegisterWorker("c06sched", workC06Sched)
 }
 
 type c06Params struct {
@@ -65,6 +67,12 @@ var c06Projects = []struct{ Name, Text string }{
 	{"allof-unknown-x3", "JSIGHT 0.3\nTYPE @d\n{ // {allOf: [\"@n1\", \"@n2\", \"@n3\"]}\n \"q\": 1\n}\nGET /d\n  200 @d\n"},
 	{"forbidden-annotations-x3", "JSIGHT 0.3\nURL /a // one\n  GET\n    Query // two\n    {}\n    200 any\nURL /b // three\n  GET\n    200 any\n"},
 	{"two-protocols-two-urls", "JSIGHT 0.3\nURL /r1\n  Protocol json-rpc-2.0\n  Protocol json-rpc-2.0\n  Method a\n    Params\n    {}\nURL /r2\n  Protocol json-rpc-2.0\n  Protocol json-rpc-2.0\n  Method b\n    Params\n    {}\n"},
+	// errors found only when the schemas are serialised at the end of the build: several interactions / types compete
+	{"late-undefined-path-types-x3", "JSIGHT 0.3\nGET /a/{id}\n  Path\n  {\n    \"id\": 1 // {type: \"@m1\"}\n  }\n  200 any\nGET /b/{id}\n  Path\n  {\n    \"id\": 1 // {type: \"@m2\"}\n  }\n  200 any\nGET /c/{id}\n  Path\n  {\n    \"id\": 1 // {type: \"@m3\"}\n  }\n  200 any\n"},
+	{"late-invalid-regex-responses-x3", "JSIGHT 0.3\nGET /a\n  200 regex\n  /[a-/\nGET /b\n  200 regex\n  /[b-/\nGET /c\n  200 regex\n  /[c-/\n"},
+	{"late-invalid-regex-types-and-response", "JSIGHT 0.3\nTYPE @r1 regex\n/[a-/\nTYPE @r2 regex\n/[b-/\nGET /c\n  200 regex\n  /[c-/\n"},
+	{"late-undefined-or-types-x2", "JSIGHT 0.3\nGET /a/{id}\n  Path\n  {\n    \"id\": 1 // {or: [\"@u1\", \"@u2\"]}\n  }\n  200 any\nGET /b/{id}\n  Path\n  {\n    \"id\": 2 // {or: [\"@u3\", \"@u4\"]}\n  }\n  200 any\n"},
+	{"late-rpc-invalid-regex-x2", "JSIGHT 0.3\nURL /r\n  Protocol json-rpc-2.0\n  Method a\n    Params regex\n    /[a-/\n    Result regex\n    /[b-/\n  Method b\n    Params regex\n    /[c-/\n"},
 	{"openapi-rich", "JSIGHT 0.3\nTYPE @t1\n{\"a\": 1}\nTYPE @t2\n{\"b\": @t1}\nTYPE @t3\n{\"c\": @t2}\nGET /a/{id}\n  Query\n  {\"q1\": 1, \"q2\": 2, \"q3\": 3}\n  Request\n    Headers\n    {\"H1\": \"1\", \"H2\": \"2\", \"H3\": \"3\"}\n    Body @t3\n  200 @t1\n  404 @t2\n  500 @t3\n"},
 }
 
@@ -345,6 +353,116 @@ func workC06Pairs(w *run.W) {
 	}
 }
 
+// ---- internal schedules: goroutines the library starts itself (none on the pinned tree) run under the cooperative
+// scheduler of the vsync variant; every schedule within the deviation bound must give the same observation.
+
+type c06SchedExec struct {
+	points   []vsync.Point
+	obs      string
+	deadlock bool
+	limit    bool
+	leaked   int
+	spawned  int
+}
+
+func c06SchedRun(build func() *impl.Built, prefix []int) (x c06SchedExec) {
+	vsync.ResetPools()
+	s := &vsync.Sched{Prefix: prefix}
+	s.Run(func() {
+		b := build()
+		switch {
+		case b.Panic != nil:
+			x.obs = "PANIC " + b.Panic.Value
+		case b.Err != nil:
+			x.obs = "ERR " + b.Err.Tuple()
+		default:
+			x.obs = "JSON " + impl.ToJson(&b.J).String() + "\nOPENAPI " + impl.ToOpenAPI(&b.J).String()
+		}
+	})
+	x.points = s.Points
+	x.deadlock, x.limit, x.leaked, x.spawned = s.Deadlock || s.Livelock, s.SelectLimit, s.Leaked, s.SpawnedThreads()
+	return x
+}
+
+func workC06Sched(w *run.W) {
+	var p c06Params
+	json.Unmarshal(w.Params, &p)
+	dir := workerDir(w)
+	defer os.RemoveAll(dir)
+	for i, pr := range c06ProjectList(p.ModelBudget, dir) {
+		if !w.Mine(int64(i)) || !w.Begin("sched:" + pr.name) {
+			continue
+		}
+		base := c06SchedRun(pr.build, nil)
+		w.Count("sched_projects", 1)
+		w.Count("sched_executions", 1)
+		w.Count("sched_threads_started_by_the_library", int64(base.spawned))
+		w.Count("sched_points", int64(len(base.points)))
+		execs := 1
+		capped := false
+		judge := func(x c06SchedExec, prefix []int) bool {
+			detail := map[string]any{"project": pr.name, "choices": prefix}
+			if x.limit {
+				w.Count("sched_select_limit", 1)
+				return true
+			}
+			if x.deadlock {
+				w.Violation("C06", "internal-schedule:deadlock", fmt.Sprintf("project %s: the build deadlocks (or exceeds the step limit) under the schedule %v of the goroutines the library starts", pr.name, prefix), detail)
+				return false
+			}
+			if x.obs != base.obs {
+				y := c06SchedRun(pr.build, prefix)
+				if y.obs != x.obs {
+					w.Violation("C06", "machinery:sched-replay-not-reproducible", "project "+pr.name+": a diverging schedule did not reproduce", detail)
+					return false
+				}
+				w.Violation("C06", "internal-schedule:"+obsClass(x.obs)+"-vs-"+obsClass(base.obs), fmt.Sprintf("project %s: the result depends on the schedule of the goroutines the library starts (choices %v)\n canonical: %s\n this one:  %s", pr.name, prefix, firstDiff(base.obs, x.obs), firstDiff(x.obs, base.obs)), detail)
+				return false
+			}
+			return true
+		}
+		judge(base, nil)
+		var rec func(x c06SchedExec, prefix []int, cost int)
+		rec = func(x c06SchedExec, prefix []int, cost int) {
+			for i := len(prefix); i < len(x.points); i++ {
+				if cost+1 > p.Bound+1 {
+					continue
+				}
+				for alt := 1; alt < x.points[i].Arity; alt++ {
+					if p.MaxExec > 0 && execs >= p.MaxExec {
+						capped = true
+						return
+					}
+					np := make([]int, i+1)
+					for k := 0; k < i; k++ {
+						np[k] = x.points[k].Taken
+					}
+					np[i] = alt
+					y := c06SchedRun(pr.build, np)
+					execs++
+					w.Count("sched_executions", 1)
+					w.Touch()
+					if judge(y, np) {
+						rec(y, np, cost+1)
+					}
+				}
+			}
+		}
+		rec(base, nil, 0)
+		if capped {
+			w.Count("sched_projects_capped", 1)
+		}
+		w.End()
+	}
+}
+
+func obsClass(o string) string {
+	if i := strings.IndexByte(o, ' '); i > 0 {
+		return o[:i]
+	}
+	return o
+}
+
 func runC06(c *chk.Ctx) {
 	rewrites, sites, err := overlay.MapRangeRewritesCached()
 	if err != nil {
@@ -399,6 +517,24 @@ func runC06(c *chk.Ctx) {
 	c.Merge(r2, "pairs")
 	r3 := pool.Run("c06bytes", p)
 	c.Merge(r3, "byte_slice_builds")
+	// goroutines started by the library itself, under the cooperative scheduler
+	if vexe, _, info, err := overlay.BuildVsync(); err != nil {
+		fmt.Fprintln(os.Stderr, err)
+		c.Incomplete = append(c.Incomplete, "the cooperative-scheduler variant could not be built for this tree: schedules of goroutines started by the library are not explored")
+	} else {
+		vpool := *c.Pool
+		vpool.Exe = vexe
+		r4 := vpool.Run("c06sched", p)
+		c.Merge(r4, "sched_executions")
+		c.Cov["library_goroutine_and_channel_sites_rewritten"] = len(info.Sites)
+		if len(info.Unsupported) > 0 {
+			c.Cov["concurrency_constructs_not_controlled"] = info.Unsupported
+			c.Incomplete = append(c.Incomplete, fmt.Sprintf("%d concurrency construct(s) of the library are not controlled by the explorer", len(info.Unsupported)))
+		}
+		if n := c.Counts()["sched_select_limit"]; n > 0 {
+			c.Incomplete = append(c.Incomplete, fmt.Sprintf("%d execution(s) ended with threads parked in facing select statements (not modelled, not judged)", n))
+		}
+	}
 	cnt := c.Counts()
 	c.Cov["states"] = cnt["choice_points"]
 	c.Cov["transitions"] = cnt["executions"]
@@ -414,5 +550,5 @@ func runC06(c *chk.Ctx) {
 	if cnt["projects_capped"] > 0 {
 		c.Incomplete = append(c.Incomplete, fmt.Sprintf("%d project(s) reached the per-project execution cap %d", cnt["projects_capped"], p.MaxExec))
 	}
-	c.Cov["rule"] = "every `for range <map>` of jsight-api-core and jsight-schema-core is rewritten (type-directed, by a build overlay generated from the current tree) to ask the explorer for its order; for every project (hand-written competing-candidate projects, every corpus file, every generated model within the budget) all executions with at most `bound` non-canonical orders are run (all permutations for maps of <= 4 keys, rotations and reversal beyond) and must yield the identical catalog+OpenAPI bytes or the identical error tuple; each diverging execution is replayed twice. In addition: each project twice in one process, once in a second process, every ordered pair of the hand-written set in one process, and each hand-written project (LF, CRLF, CR) twice from one caller-owned byte slice, which must stay unchanged."
+	c.Cov["rule"] = "every `for range <map>` of jsight-api-core and jsight-schema-core is rewritten (type-directed, by a build overlay generated from the current tree) to ask the explorer for its order; for every project (hand-written competing-candidate projects, every corpus file, every generated model within the budget) all executions with at most `bound` non-canonical orders are run (all permutations for maps of <= 4 keys, rotations and reversal beyond) and must yield the identical catalog+OpenAPI bytes or the identical error tuple; each diverging execution is replayed twice. In addition: each project twice in one process, once in a second process, every ordered pair of the hand-written set in one process, and each hand-written project (LF, CRLF, CR) twice from one caller-owned byte slice, which must stay unchanged. Goroutines the library starts itself (go statements, channel operations, select, sync and sync/atomic are rewritten to a cooperative scheduler by a second overlay) are explored the same way: every schedule within bound+1 deviations must give the canonical observation and must not deadlock."
 }
